@@ -370,5 +370,19 @@ class _MatchDesugar(ast.NodeTransformer):
         return out
 
 
+class _TypeCall(ast.NodeTransformer):
+    """type(x) with one argument is x.__class__ (no class of the library overrides __class__)"""
+
+    def visit_Call(self, node):
+        self.generic_visit(node)
+        if isinstance(node.func, ast.Name) and node.func.id == "type" and len(node.args) == 1 and not node.keywords \
+                and not isinstance(node.args[0], ast.Starred):
+            return ast.copy_location(ast.Attribute(value=node.args[0], attr="__class__", ctx=ast.Load()), node)
+        return node
+
+
 def desugar_match(tree):
-    return ast.fix_missing_locations(_MatchDesugar().visit(tree))
+    """normal forms applied once, right after parsing: simple `match` statements -> if chains, type(x) -> x.__class__"""
+    tree = _MatchDesugar().visit(tree)
+    tree = _TypeCall().visit(tree)
+    return ast.fix_missing_locations(tree)
